@@ -377,13 +377,15 @@ class LocationTable:
         # Entries that outlived their lifetime since the last reception are gone
         # before this packet is processed (it must not revive their state).
         self.refresh_table()
+        # The entry is created and updated in one critical section: a concurrent purge must not
+        # see (and drop) an entry that has no position vector yet
         with self.loc_t_lock:
             entry = self.loc_t.get(position_vector.gn_addr)
             if entry is None:
                 entry = LocationTableEntry(self.mib)
                 self.loc_t[position_vector.gn_addr] = entry
 
-        entry.update_with_shb_packet(position_vector, packet)
+            entry.update_with_shb_packet(position_vector, packet)
         self.refresh_table()
 
     def new_guc_packet(
@@ -413,22 +415,24 @@ class LocationTable:
         # before this packet is processed (it must not revive their state).
         self.refresh_table()
         so_pv = guc_extended_header.so_pv
+        # The entry is created and updated in one critical section: a concurrent purge must not
+        # see (and drop) an entry that has no position vector yet
         with self.loc_t_lock:
             entry: LocationTableEntry | None = self.get_entry(so_pv.gn_addr)
             is_new_entry = entry is None
             if is_new_entry:
                 entry = LocationTableEntry(self.mib)
                 self.loc_t[so_pv.gn_addr] = entry
-        assert entry is not None
-        # DPD – SN-based per annex A.2
-        entry.check_duplicate_sn(guc_extended_header.sn)
-        # Update PV
-        entry.update_position_vector(so_pv)
-        # Update PDR
-        entry.update_pdr(so_pv, len(packet) + 8 + 4)
-        # IS_NEIGHBOUR = FALSE only for new entry (NOTE 2: unchanged otherwise)
-        if is_new_entry:
-            entry.is_neighbour = False
+            assert entry is not None
+            # DPD – SN-based per annex A.2
+            entry.check_duplicate_sn(guc_extended_header.sn)
+            # Update PV
+            entry.update_position_vector(so_pv)
+            # Update PDR
+            entry.update_pdr(so_pv, len(packet) + 8 + 4)
+            # IS_NEIGHBOUR = FALSE only for new entry (NOTE 2: unchanged otherwise)
+            if is_new_entry:
+                entry.is_neighbour = False
         self.refresh_table()
 
     def new_tsb_packet(
@@ -454,6 +458,8 @@ class LocationTable:
         # Entries that outlived their lifetime since the last reception are gone
         # before this packet is processed (it must not revive their state).
         self.refresh_table()
+        # The entry is created and updated in one critical section: a concurrent purge must not
+        # see (and drop) an entry that has no position vector yet
         with self.loc_t_lock:
             entry: LocationTableEntry | None = self.get_entry(
                 tsb_extended_header.so_pv.gn_addr)
@@ -461,8 +467,8 @@ class LocationTable:
             if is_new_entry:
                 entry = LocationTableEntry(self.mib)
                 self.loc_t[tsb_extended_header.so_pv.gn_addr] = entry
-        assert entry is not None
-        entry.update_with_tsb_packet(packet, tsb_extended_header, is_new_entry)
+            assert entry is not None
+            entry.update_with_tsb_packet(packet, tsb_extended_header, is_new_entry)
         self.refresh_table()
 
     def new_gac_packet(
@@ -494,22 +500,24 @@ class LocationTable:
         # before this packet is processed (it must not revive their state).
         self.refresh_table()
         so_pv = gbc_extended_header.so_pv
+        # The entry is created and updated in one critical section: a concurrent purge must not
+        # see (and drop) an entry that has no position vector yet
         with self.loc_t_lock:
             entry: LocationTableEntry | None = self.get_entry(so_pv.gn_addr)
             is_new_entry = entry is None
             if is_new_entry:
                 entry = LocationTableEntry(self.mib)
                 self.loc_t[so_pv.gn_addr] = entry
-        assert entry is not None
-        # DPD – SN-based per annex A.2
-        entry.check_duplicate_sn(gbc_extended_header.sn)
-        # Update PV (step 5a / 6a)
-        entry.update_position_vector(so_pv)
-        # Update PDR (step 5c / 6b)
-        entry.update_pdr(so_pv, len(packet) + 8 + 4)
-        # IS_NEIGHBOUR = FALSE only for new entry (NOTE 1: unchanged otherwise)
-        if is_new_entry:
-            entry.is_neighbour = False
+            assert entry is not None
+            # DPD – SN-based per annex A.2
+            entry.check_duplicate_sn(gbc_extended_header.sn)
+            # Update PV (step 5a / 6a)
+            entry.update_position_vector(so_pv)
+            # Update PDR (step 5c / 6b)
+            entry.update_pdr(so_pv, len(packet) + 8 + 4)
+            # IS_NEIGHBOUR = FALSE only for new entry (NOTE 1: unchanged otherwise)
+            if is_new_entry:
+                entry.is_neighbour = False
         self.refresh_table()
 
     def new_ls_request_packet(
@@ -539,22 +547,24 @@ class LocationTable:
         # before this packet is processed (it must not revive their state).
         self.refresh_table()
         so_pv = ls_request_header.so_pv
+        # The entry is created and updated in one critical section: a concurrent purge must not
+        # see (and drop) an entry that has no position vector yet
         with self.loc_t_lock:
             entry: LocationTableEntry | None = self.get_entry(so_pv.gn_addr)
             is_new_entry = entry is None
             if is_new_entry:
                 entry = LocationTableEntry(self.mib)
                 self.loc_t[so_pv.gn_addr] = entry
-        assert entry is not None
-        # DPD – SN-based per annex A.2
-        entry.check_duplicate_sn(ls_request_header.sn)
-        # Step 5a / 6a: update PV(SO)
-        entry.update_position_vector(so_pv)
-        # Step 5c / 6b: update PDR(SO)
-        entry.update_pdr(so_pv, len(packet) + 8 + 4)
-        # Step 5b: IS_NEIGHBOUR = FALSE only for new entry (NOTE: unchanged otherwise)
-        if is_new_entry:
-            entry.is_neighbour = False
+            assert entry is not None
+            # DPD – SN-based per annex A.2
+            entry.check_duplicate_sn(ls_request_header.sn)
+            # Step 5a / 6a: update PV(SO)
+            entry.update_position_vector(so_pv)
+            # Step 5c / 6b: update PDR(SO)
+            entry.update_pdr(so_pv, len(packet) + 8 + 4)
+            # Step 5b: IS_NEIGHBOUR = FALSE only for new entry (NOTE: unchanged otherwise)
+            if is_new_entry:
+                entry.is_neighbour = False
         self.refresh_table()
 
     def new_ls_reply_packet(
@@ -584,21 +594,23 @@ class LocationTable:
         # before this packet is processed (it must not revive their state).
         self.refresh_table()
         so_pv = ls_reply_header.so_pv
+        # The entry is created and updated in one critical section: a concurrent purge must not
+        # see (and drop) an entry that has no position vector yet
         with self.loc_t_lock:
             entry: LocationTableEntry | None = self.get_entry(so_pv.gn_addr)
             is_new_entry = entry is None
             if is_new_entry:
                 entry = LocationTableEntry(self.mib)
                 self.loc_t[so_pv.gn_addr] = entry
-        assert entry is not None
-        # DPD – SN-based per annex A.2
-        entry.check_duplicate_sn(ls_reply_header.sn)
-        # Step 4: update PV(SO)
-        entry.update_position_vector(so_pv)
-        # Step 5: update PDR(SO)
-        entry.update_pdr(so_pv, len(packet) + 8 + 4)
-        if is_new_entry:
-            entry.is_neighbour = False
+            assert entry is not None
+            # DPD – SN-based per annex A.2
+            entry.check_duplicate_sn(ls_reply_header.sn)
+            # Step 4: update PV(SO)
+            entry.update_position_vector(so_pv)
+            # Step 5: update PDR(SO)
+            entry.update_pdr(so_pv, len(packet) + 8 + 4)
+            if is_new_entry:
+                entry.is_neighbour = False
         self.refresh_table()
 
     def new_gbc_packet(
@@ -624,13 +636,15 @@ class LocationTable:
         # Entries that outlived their lifetime since the last reception are gone
         # before this packet is processed (it must not revive their state).
         self.refresh_table()
+        # The entry is created and updated in one critical section: a concurrent purge must not
+        # see (and drop) an entry that has no position vector yet
         with self.loc_t_lock:
             entry: LocationTableEntry | None = self.get_entry(
                 gbc_extended_header.so_pv.gn_addr)
             if entry is None:
                 entry = LocationTableEntry(self.mib)
                 self.loc_t[gbc_extended_header.so_pv.gn_addr] = entry
-        entry.update_with_gbc_packet(packet, gbc_extended_header)
+            entry.update_with_gbc_packet(packet, gbc_extended_header)
         self.refresh_table()
 
     def get_neighbours(self) -> list[LocationTableEntry]:
